@@ -168,4 +168,20 @@ CHECKS["C16"] = {
           "The @Cache decorator on downsample_grid is C17's subject.",
   "technique": "contract-based deductive verification: AST-generated VCs (cy2py text of the .pyx) with loop invariants, ghost assertions and "
                "callee contracts over an axiomatised numpy model, discharged by z3"}
+CHECKS["C06"] = {
+  "text": "Three layers over the real code. (1) For every AncillaryFeature instance in the real registry: the ingredient set of its cache key is "
+          "derived by executing AncillaryFeature.hash symbolically; the instance's method is executed symbolically on a dataset whose "
+          "configuration keys are present/absent/valued symbolically under the assumption that this instance is selected; relational "
+          "(non-interference) obligations over all pairs of paths prove that two states agreeing on the ingredients of the hash give the "
+          "same outcome, and noraise obligations that a selected instance can be read. (2) RTDCBase._get_ancillary_feature_data returns the "
+          "cached value only for an entry stored under the hash of the current state, otherwise the value computed now, never recomputes "
+          "on a hit and keeps the invariant 'entry == value of its hash'. (3) AncillaryFeature.is_available equals the availability formula "
+          "(requirements present, no higher-priority instance available, req_func) for the emodulus, crosstalk, time, volume and ml_class instances.",
+  "note": "Assumed: A-HASH; functions of dclab.features.* are pure functions of their arguments (checked: never handed the dataset); innate "
+          "features do not change during the life of a dataset (feature reads outside req_features are reported, not obligations); numeric "
+          "content is abstracted (opaque values with structural signatures). Known finding D16 (availability does not look at values: "
+          "'emodulus' / 'flN_max_ctc' reported available although reading raises). Plugin and temporary features, the priority of cached "
+          "ancillary data over basin data in RTDCBase.__getitem__, and obj2bytes' injectivity on arrays (dtype/shape, cf. C17) are not under contract.",
+  "technique": "contract-based deductive verification: AST-generated VCs incl. relational non-interference obligations over path pairs and a "
+               "derived reads/hash frame, discharged by z3"}
 NOT_APPLICABLE = {}
